@@ -60,9 +60,9 @@ AsNum(v, isRecv) ==
 \* array receiver / argument
 RangeItems(a, b) == IF b < a THEN <<>> ELSE [i \in 1..(b - a + 1) |-> IntV(a + i - 1)]
 AsArr(v) ==
-  CASE v.k = "arr" -> [ok |-> TRUE, v |-> v.v]
-    [] v.k = "range" -> [ok |-> TRUE, v |-> RangeItems(v.a, v.b)]
-    [] OTHER -> [ok |-> FALSE, v |-> <<>>]
+  CASE v.k = "arr" -> [ok |-> TRUE, v |-> v.v, nf |-> NilFree(v)]
+    [] v.k = "range" -> [ok |-> TRUE, v |-> RangeItems(v.a, v.b), nf |-> FALSE]
+    [] OTHER -> [ok |-> FALSE, v |-> <<>>, nf |-> FALSE]
 
 \* ----------------------------------------------------------------- arity
 MaxArgs(name) ==
@@ -119,22 +119,28 @@ JoinItems(s, sep) ==
       THEN FVal(Str(JoinWith([i \in 1..Len(ts) |-> ts[i].s], sep)))
       ELSE FUnspec
 
-ArrayFilter(name, a, args) ==
+ArrayFilter(name, a, args, nf) ==
   LET n == Len(args)
       arg1 == IF n >= 1 THEN args[1] ELSE Nil
+      nonNil == SelectSeq(a, LAMBDA e : ~IsNil(e))
+      nils == SelectSeq(a, LAMBDA e : IsNil(e))
   IN
-  CASE name = "compact" -> FVal(Arr(SelectSeq(a, LAMBDA e : ~IsNil(e))))
+  CASE nf /\ ~(name \in {"compact", "size", "join"} \/ (name = "sort" /\ n = 0)) -> FUnspec
+    [] name = "compact" -> FVal(Arr(SelectSeq(a, LAMBDA e : ~IsNil(e))))
     [] name = "reverse" -> FVal(Arr(Rev(a)))
     [] name = "first" -> FVal(IF a = <<>> THEN Nil ELSE a[1])
     [] name = "last" -> FVal(IF a = <<>> THEN Nil ELSE a[Len(a)])
     [] name = "size" -> FVal(IntV(Len(a)))
-    [] name = "concat" -> IF n = 1 /\ AsArr(arg1).ok THEN FVal(Arr(a \o AsArr(arg1).v)) ELSE FUnspec
+    [] name = "concat" -> IF n = 1 /\ AsArr(arg1).ok /\ ~AsArr(arg1).nf THEN FVal(Arr(a \o AsArr(arg1).v)) ELSE FUnspec
     [] name = "join" -> IF n = 0 THEN JoinItems(a, <<32>>)
                         ELSE IF arg1.k = "str" THEN JoinItems(a, arg1.v) ELSE FUnspec
     [] name = "map" -> IF n = 1 /\ arg1.k = "str"
                        THEN FVal(Arr([i \in 1..Len(a) |-> Prop(a[i], arg1.v)])) ELSE FUnspec
     [] name = "uniq" -> IF UniqDecided(a) THEN FVal(Arr(UniqSeq(a, <<>>))) ELSE FUnspec
-    [] name = "sort" -> IF n = 0 THEN (IF SortableSeq(a) THEN FVal(Arr(SortBy(a, ValLess))) ELSE FUnspec)
+    [] name = "sort" -> IF n = 0 THEN
+                          (IF SortableSeq(a) THEN FVal(Arr(SortBy(a, ValLess)))
+                           ELSE IF nils # <<>> /\ SortableSeq(nonNil) THEN FVal(ArrNF(nils \o SortBy(nonNil, ValLess)))
+                           ELSE FUnspec)
                         ELSE IF arg1.k = "str" THEN SortByKey(a, arg1.v) ELSE FUnspec
     [] name = "sort_natural" ->
          IF n = 0 /\ AllK(a, {"str"}) /\ (\A i \in 1..Len(a) : CaseModelled(a[i].v))
@@ -252,7 +258,10 @@ NumericFilter(name, x, args) ==
   IN
   CASE name = "plus" -> Bin(NumAdd)
     [] name = "minus" -> Bin(NumSub)
-    [] name = "times" -> Bin(NumMul)
+    [] name = "times" ->
+         \* a zero product with a negative factor is IEEE negative zero ("-0"): the value is exact, its spelling open
+         IF n = 1 /\ b.r = "num" /\ NumN(NumMul(x, b.v)) = 0 /\ (NumN(x) < 0 \/ NumN(b.v) < 0) THEN FUnspec
+         ELSE Bin(NumMul)
     [] name = "abs" -> IF n = 0 THEN FVal(Flt(AbsI(NumN(x)), NumD(x))) ELSE FUnspec
     [] name = "ceil" -> IF n = 0 THEN FVal(IntV(CeilDiv(NumN(x), NumD(x)))) ELSE FUnspec
     [] name = "floor" -> IF n = 0 THEN FVal(IntV(FloorDiv(NumN(x), NumD(x)))) ELSE FUnspec
@@ -269,7 +278,8 @@ NumericFilter(name, x, args) ==
          IF n # 1 THEN FUnspec
          ELSE IF IsNum(args[1]) THEN
            (IF NumN(args[1]) = 0 THEN FErr
-            ELSE IF args[1].k = "flt" THEN FVal(NumDivReal(x, args[1]))
+            ELSE IF args[1].k = "flt" THEN
+              (IF NumN(x) = 0 /\ NumN(args[1]) < 0 THEN FUnspec ELSE FVal(NumDivReal(x, args[1])))
             ELSE \* integer divisor: integer division; floor and truncation
                  \* agree exactly when the exact quotient is whole or positive
                  LET q == NumDivReal(x, args[1])
@@ -308,10 +318,10 @@ Filter(name, recv, args) ==
      ELSE FVal(recv))
   ELSE IF name = "size" THEN
     (IF recv.k = "str" THEN StringFilter(name, recv.v, args)
-     ELSE IF AsArr(recv).ok THEN ArrayFilter(name, AsArr(recv).v, args)
+     ELSE IF AsArr(recv).ok THEN ArrayFilter(name, AsArr(recv).v, args, AsArr(recv).nf)
      ELSE FUnspec)
   ELSE IF name \in ArrayFilters THEN
-    (IF AsArr(recv).ok THEN ArrayFilter(name, AsArr(recv).v, args) ELSE FUnspec)
+    (IF AsArr(recv).ok THEN ArrayFilter(name, AsArr(recv).v, args, AsArr(recv).nf) ELSE FUnspec)
   ELSE IF name \in StringFilters THEN
     (IF AsStr(recv).ok THEN StringFilter(name, AsStr(recv).s, args) ELSE FUnspec)
   ELSE IF name \in NumericFilters THEN
